@@ -18,13 +18,14 @@ theorem success_raises_enough (b : Brk σ α) (srv : Srv σ α) (ks : List σ) (
       ∧ (withdrawLiq .repaired b srv ks req).2.2 = (sendOrders .repaired b srv (os.map (fun o => mkSell o.1 o.2))).2.1 :=
   withdrawLiq_success b srv ks req x hbid h
 
-/-- none of the queued sales exceeds the position held (whole-share positions, positive bids) -/
+/-- none of the queued sales exceeds the position held (positive bids; after repair F10 this needs no
+    whole-share hypothesis: the partial sale is capped at the position) -/
 theorem no_sale_exceeds_position (b : Brk σ α) (ks : List σ) (req : α) (os : List (σ × α)) (hreq : 0 ≤ req)
-    (hbid : ∀ s q, b.latest s = some q → 0 < q.bid) (hint : ∀ s h, b.hold s = some h → ∃ z : ℤ, h = z)
+    (hbid : ∀ s q, b.latest s = some q → 0 < q.bid)
     (hw : walk .repaired b ks req [] = .done os ∨ ∃ r, walk .repaired b ks req [] = .left r os) :
     ∀ o ∈ os, ∃ h, b.hold o.1 = some h ∧ o.2 ≤ h := by
   intro o ho
-  rcases walk_le_position b hbid hint ks req [] os hreq hw o ho with hm | hm
+  rcases walk_le_position b hbid ks req [] os hreq hw o ho with hm | hm
   · simp at hm
   · exact hm
 
